@@ -237,6 +237,13 @@ func checkHeld(where string, viol *[]hx.OracleViolation) {
 	}
 }
 
+// resnapHeld: the caller has written into results it holds; from now on they must read like that.
+func resnapHeld() {
+	for i := range held {
+		held[i].snap = held[i].read()
+	}
+}
+
 func clip(s string) string {
 	if len(s) > 120 {
 		return s[:120] + "..."
